@@ -83,7 +83,24 @@ pub fn prove_body(
                 }
                 BodyPredicate::Negated(atom) => {
                     let bound = substitute_atom(atom, bindings);
-                    let matches = find_matching_tuples(&atom.relation, &bound, ctx.base_data);
+                    let mut matches = find_matching_tuples(&atom.relation, &bound, ctx.base_data);
+                    // A negated atom over a derived relation holds only if no derived
+                    // fact matches either: look at the relation's derived facts or, if
+                    // none were supplied for it, search for a derivation of a match.
+                    if matches.is_empty() && ctx.is_derived(&atom.relation) {
+                        matches = match ctx.derived_data {
+                            Some(derived) if derived.contains_key(&atom.relation) => {
+                                find_matching_tuples(&atom.relation, &bound, derived)
+                            }
+                            _ => enumerate_derived_candidates(
+                                &atom.relation,
+                                &bound,
+                                ctx,
+                                visited,
+                                depth,
+                            ),
+                        };
+                    }
                     if matches.is_empty() {
                         let pattern_str = format_bound_terms(&bound);
                         let node_id = builder.insert_unique(ProofNode {
